@@ -1,10 +1,10 @@
-\* generation, one caller: every step of Mount/Check/Unmount with every environment choice
+\* generation, one caller, three calls, two label kinds (Mount; Mount/Check/Unmount; any third call)
 CONSTANTS
     MPs = {"m1", "m2"}
     Blobs = {"b1"}
-    Labs = {"ok", "bad", "skip", "none", "malformed", "mirror"}
+    Labs = {"ok", "bad"}
     Ops = {"Mount", "Check", "Unmount"}
-    MaxCalls = 2
+    MaxCalls = 3
     MaxConc = 1
     MaxObj = 2
     SameMp = FALSE
